@@ -1287,7 +1287,8 @@ class DNA(symbolic.Object):
       elif len(self.children) == 1:
         child = self.children[0].to_numbers(flatten)
         if isinstance(child, tuple):
-          return tuple([self.value, list(child)])
+          # A chain of conditional choices is a flat tuple (see `sym_jsonify`).
+          return (self.value,) + child
         else:
           return (self.value, child)
       else:
